@@ -131,7 +131,17 @@ def parso_tree_constants():
                 consts[s.targets[0].id] = ev(s.value)
             except Exception:
                 pass
-    out = {'consts': consts, 'digest': hashlib.sha256(src.encode()).hexdigest(), 'path': path, 'tree': tree, 'src': src}
+    # does Name.get_definition hand out `node.parent` of an except_clause unchecked?  (then its type can also be error_node)
+    parent_unchecked = False
+    for cls in tree.body:
+        if isinstance(cls, ast.ClassDef) and cls.name == 'Name':
+            for fn in cls.body:
+                if isinstance(fn, ast.FunctionDef) and fn.name == 'get_definition':
+                    for n in ast.walk(fn):
+                        if isinstance(n, ast.Return) and isinstance(n.value, ast.Attribute) and n.value.attr == 'parent':
+                            parent_unchecked = True
+    out = {'consts': consts, 'digest': hashlib.sha256(src.encode()).hexdigest(), 'path': path, 'tree': tree, 'src': src,
+           'get_definition_returns_parent_of_except_clause': parent_unchecked}
     _tree_cache[path] = out
     return out
 
